@@ -743,6 +743,9 @@ func (m *AccessMode) ApplyDelta(delta string) error {
 		// No updates.
 		return nil
 	}
+	if delta[0] != '+' && delta[0] != '-' {
+		return errors.New("Invalid acs delta string: '" + delta + "'")
+	}
 	m0 := *m
 	for next := 0; next+1 < len(delta) && next >= 0; {
 		ch := delta[next]
